@@ -244,7 +244,7 @@ Section WithHeap.
   Definition rt_str (l : list val) : res val :=
     do ts <- texts l;
     let s := concat_bytes ts in
-    if Nat.ltb 1 (length s) then
+    if Nat.ltb 0 (length s) then
       if forallb is_ascii s then Ok (VStr (B " " ++ trim_space s)) else
       (* non-ASCII: TrimSpace is rune-aware; modelled when the edges are ASCII non-space *)
       match s, rev s with
